@@ -246,7 +246,8 @@ def _operand_menu(rng, spec, need_ray, with_comp):
 
 
 FIXED = [(m, f, g) for m in ('normal', 'nominal', 'extreme', 'failpoint') for f in ('SA', 'MC') for g in (False,)] + \
-        [('normal', 'SA', True), ('normal', 'SA', True), ('normal', 'MC', True), ('nominal', 'MC', True), ('nominal', 'SA', True)]
+        [('normal', 'SA', True), ('normal', 'SA', True), ('normal', 'MC', True), ('nominal', 'MC', True), ('nominal', 'SA', True)] + \
+        [('normal', 'SA', 'plane'), ('normal', 'MC', 'plane')]
 
 
 def fixed_cases(tier):
@@ -257,21 +258,24 @@ def fixed_cases(tier):
         rng = np.random.default_rng([15, j])
         c = None
         while c is None:
-            c = gen_case(rng, tier, j, mode=m, family=f, index_on_glass=g)
+            c = gen_case(rng, tier, j, mode=m, family=f, index_on_glass=(g is True), radius_on_plane=(g == 'plane'))
         c['fixed'] = j
         out.append(c)
     return out
 
 
-def gen_case(rng, tier, i, mode=None, family=None, index_on_glass=None):
+def gen_case(rng, tier, i, mode=None, family=None, index_on_glass=None, radius_on_plane=False):
     r = rng.random()
     mode = mode or ('normal' if r < 0.66 else 'nominal' if r < 0.78 else 'extreme' if r < 0.90 else 'failpoint')
     family = family or ('SA' if rng.random() < 0.45 else 'MC')
     glass_p = 0.5 if (rng.random() < 0.4 or index_on_glass) else 0.0
     if index_on_glass is None:
         index_on_glass = glass_p > 0 and rng.random() < 0.5
-    spec, info, a = _gen_lens(rng, glass_p, asphere_p=(0.4 if rng.random() < 0.4 else 0.0),
-                              nwl=((2, 3) if index_on_glass else (1, 3)))
+    while True:
+        spec, info, a = _gen_lens(rng, glass_p, asphere_p=(0.4 if rng.random() < 0.4 else 0.0),
+                                  nwl=((2, 3) if index_on_glass else (1, 3)))
+        if not radius_on_plane or any(s_.get('radius', 'inf') == 'inf' for s_ in spec['surfaces'][:-1]):
+            break
     classes = []
     if rng.random() < 0.35:
         classes = L.decorate(spec, rng, a, tilt_p=0.35, decenter_p=0.35,
@@ -293,6 +297,10 @@ def gen_case(rng, tier, i, mode=None, family=None, index_on_glass=None):
         if not gl:
             return None
         forced = [('index', gl[int(rng.integers(len(gl)))])]
+        nper = max(nper, 2)
+    if radius_on_plane:
+        pl = [k for k, s_ in enumerate(spec['surfaces'][:-1], start=1) if s_.get('radius', 'inf') == 'inf']
+        forced = [('radius', dict(surface_number=pl[int(rng.integers(len(pl)))]))]
         nper = max(nper, 2)
     for _ in range(nper * 3):
         if len(perts) >= nper:
